@@ -110,10 +110,9 @@ fn run_eq(s: &Scn, st: &mut RunStats, check_probe_only: bool) -> Result<(), Viol
         st.evals += 1;
         st.packets += n as u64;
         st.ev_u64(out.chan.hash);
-        st.interleaving = Some(st.interleaving.unwrap_or(0) ^ crate::rng::mix64(out.chan.hash));
+        st.schedules_seen.push(out.chan.hash);
         st.fault_n("timeout_on_empty_queue", out.chan.timeouts_empty);
         st.probe_n("try_recv_empty", out.chan.try_recv_empty);
-        st.probe_n("batched_try_recv_hits", out.chan.recvs.saturating_sub(out.chan.sends_ok.min(out.chan.recvs)));
         if out.outcomes.iter().flatten().any(|q| !*q) {
             // unhashable frames are legitimately discarded by the TLS pool; anything else is an overflow the scenario must not have
             let unhashable = all.iter().filter(|p| pool::worker_of(kind, &p.frame, s.cfg.workers).is_none()).count();
@@ -477,7 +476,7 @@ impl Prop for C15Pool {
                 st.evals += 1;
                 st.packets += s.trace.len() as u64;
                 st.ev_u64(out.chan.hash);
-                st.interleaving = Some(st.interleaving.unwrap_or(0) ^ crate::rng::mix64(out.chan.hash));
+                st.schedules_seen.push(out.chan.hash);
                 compare(kind, &expect, &out.results, "filtered pool vs unfiltered sequential on the admitted sub-trace")?;
                 any |= out.results.iter().any(|r| !r.is_empty());
             }
